@@ -106,7 +106,8 @@ def run(ctx: Ctx):
                 u = pt.get_pt_as_universe()
                 frames = np.array([u.atoms.positions.copy() for _ in u.trajectory])
                 names = [a.name for a in u.atoms]
-                gen = [(i, uu.atoms.positions.copy()) for i, uu in Pseudotrajectory(m1, m2, arr[:7]).generate_pseudotrajectory()]
+                held = list(Pseudotrajectory(m1, m2, arr[:7]).generate_pseudotrajectory())     # frames are KEPT and read afterwards
+                gen = [(i, uu.atoms.positions.copy()) for i, uu in held]
         except Exception as ex:
             ctx.violation(f"{key0}: exception {type(ex).__name__}", dict(molecule=name))
             continue
@@ -179,6 +180,32 @@ def run(ctx: Ctx):
                     ctx.violation(f"Pseudotrajectory(molecule={molname}, rows={name}): frame {k} is not the placement of row {k}",
                                   dict(rows=name, frame=k, row=[float(v) for v in row], off_by_A=err))
                     break
+    # the writer path (io.py: TwoMoleculeWriter / PtWriter): both molecule FILES are uncentred and have different centres;
+    # the writer must centre each molecule at its own centre of mass before the pseudotrajectory is built
+    from molgri.io import PtWriter
+    off1, off2 = np.array([3.0, -2.0, 1.5]), np.array([-7.0, 4.0, 9.0])
+    w1, w2 = str(d / "w1.xyz"), str(d / "w2.xyz")
+    c1 = np.array([(0, 0, 12), (76, 0, -47), (-76, 0, -47)], dtype=float) * UNIT
+    c2 = np.array(MOLS["generic4"][1], dtype=float) * UNIT
+    for path, el, cc, off in ((w1, "O", c1, off1), (w2, "C", c2, off2)):
+        with open(path, "w") as f:
+            f.write(f"{len(cc)}\nmolecule\n" + "".join(f"{el} {x:.6f} {y:.6f} {z:.6f}\n" for x, y, z in cc + off))
+    gpath = str(d / "grid.npy")
+    np.save(gpath, np.array(scans[:10]))
+    try:
+        with quiet():
+            pw = PtWriter(w1, w2, cell_size_A=100.0, path_grid=gpath)
+            frames = np.array([pw.pt_universe.atoms.positions.copy() for _ in pw.pt_universe.trajectory])
+        ref1 = c1 - c1.mean(axis=0)
+        ref2 = c2 - c2.mean(axis=0)
+        for k, row in enumerate(np.array(scans[:10])):
+            want2 = (rot_spec_formula(row[3:]) @ ref2.T).T + row[:3]
+            ctx.count(1, nontrivial_key=("ptwriter", k))
+            if len(frames) != 10 or np.max(np.abs(frames[k][:3] - ref1)) > 1e-4 or np.max(np.abs(frames[k][3:] - want2)) > 1e-4:
+                ctx.violation(f"PtWriter (uncentred molecule files): frame {k} is not the placement of row {k}", dict(frame=k, row=[float(v) for v in row]))
+                break
+    except Exception as ex:
+        ctx.violation(f"PtWriter (uncentred molecule files): exception {type(ex).__name__}", dict())
     ctx.cov["traces_validated_against_impl"] += len(cases)
     ctx.sample(dict(molecule="generic4", row=meta[0][3][0], expected=expect[0][0]))
     import shutil
